@@ -10,6 +10,13 @@ same db_session (the per-session cache is live) and re-ordered in a fresh db_ses
 decision function in vlib/c34_model.py, which is written from the rule semantics and never calls Pony.  Database.to_json
 is then called for generated (user, data, include) and its output is checked never to contain an object (or a schema
 entity / attribute) the reference says the user may not view.
+
+Histories: a case also carries 0..2 later epochs.  The db_session that precedes an epoch (it has just asked every
+question, so Pony's per-thread group / role memo is full) is left normally, by a commit that fails on leaving the block
+(duplicate unique key), by an exception in its body, by a failing flush, or after an explicit rollback(); then the tables
+behind the getters change (the users' groups, the (user, object) roles, the object labels) and a new db_session -- asking
+either about freshly fetched instances or about the very instances the previous session loaded -- must answer, and
+to_json must filter, for the NEW tables.
 """
 from math import gcd
 
@@ -24,7 +31,11 @@ RULE = ('hypothesis: configuration = 1..5 rules (entities subset of P/D/SD/T, pe
         'class-restricted getter each) x 1..7 linked objects. One evaluation = one (configuration, user, permission, target) '
         'has_perm decision (target = entity, attribute or object), asked 3 times (canonical order; re-ordered in the same '
         'session; re-ordered in a new session) and, with the can_* wrappers, compared with the reference model, then asked '
-        'twice more with Pony\'s rule sets iterated in declaration and in reversed order (answers must not move); each to_json '
+        'twice more with Pony\'s rule sets iterated in declaration and in reversed order (answers must not move); then 0..2 '
+        'later epochs: the preceding db_session ends normally / with a commit that fails on leaving it / with an exception in '
+        'the body / with a failing flush / after rollback(), the group, role and label tables behind the getters are '
+        're-drawn, and every decision is asked again in a new db_session (about fresh instances or about the instances kept '
+        'from the previous session) and counted as one more evaluation against the reference for the new tables; each to_json '
         'call is one more evaluation. Non-trivial = at least one rule is registered for the permission on the target\'s entity '
         '(otherwise has_perm is False before any rule is looked at); distinct by (configuration hash, user, permission, target). '
         'Relationship attributes are only checked against the two implications the statement fixes.')
@@ -38,12 +49,15 @@ ASSUMPTIONS = ['reference decision function vlib/c34_model.py (entity / object /
                'getter registries (pony.orm.core.usergroup_functions etc.) are process-global: six table-driven getters are '
                'registered once per worker process']
 SHARDS = {'quick': 4, 'thorough': 16}
-MIN_EVALS = {'quick': 150000, 'thorough': 2000000}
+MIN_EVALS = {'quick': 250000, 'thorough': 3000000}
 CLASS_FLOORS = {'entity:granted': 0.01, 'entity:denied_only_by_entity_exclusion': 0.001,
                 'attr:granted': 0.02, 'attr:denied_only_by_attr_exclusion': 0.001,
                 'object:granted': 0.01, 'object:granted_through_roles_or_labels': 0.001,
                 'relattr:both_sides': 0.005, 'relattr:no_side': 0.01,
-                'to_json:returned': 0.0005, 'to_json:refused': 0.0005}
+                'to_json:returned': 0.0005, 'to_json:refused': 0.0005,
+                'history:answer_changed_after_commit_error': 0.002, 'history:answer_changed_after_body_error': 0.001,
+                'history:answer_changed_after_flush_error': 0.001, 'history:answer_changed_after_rollback_call': 0.001,
+                'history:answer_changed_after_normal': 0.001, 'history:kept_instances': 0.02}
 
 
 # ------------------------------------------------------------------------------------------------------------------
@@ -749,7 +763,9 @@ MANIFEST = {
     'text': 'Hypothesis-generated rule sets (1-5 rules with group/role/label requirements and entity/attribute exclusions) over '
             'a 4-class model with three relationships, 1-3 users of four kinds and up to 7 objects; every (user, permission, '
             'entity|attribute|object) decision of has_perm / can_* is asked three times (canonical, re-ordered in the same '
-            'session, re-ordered in a new session) and compared with an independent reference decision function; to_json '
+            'session, re-ordered in a new session) and compared with an independent reference decision function; multi-session '
+            'histories (sessions ended by a failing commit, a body exception, a failing flush or rollback(), followed by '
+            'changed group / role / label tables) must answer for the current tables; to_json '
             'output (objects and schema) is checked to contain nothing the reference forbids. Sampled, not exhaustive.',
     'note': 'The permission subsystem is undocumented: relationship attributes are only held to the two implications the '
             'statement fixes under either reading of its reverse-side clause; entity/attribute level treat role and label '
